@@ -4,6 +4,7 @@
 package c20
 
 import (
+	"strconv"
 	"bytes"
 	"context"
 	"crypto/sha256"
@@ -93,6 +94,8 @@ const (
 	BValid
 	BHostileLen
 	BNotContiguous // /tx only: a well-formed LTX file that does not extend the database's position
+	BExtends       // /tx only: a well-formed LTX file that extends the database's position exactly
+	BCutSnapshot   // /tx only: a snapshot file (MinTXID 1) that ends early
 )
 
 type Req struct {
@@ -110,20 +113,28 @@ type Req struct {
 
 type Plan struct {
 	Reqs []Req `json:"reqs"`
+	// Hold: a (foreign) node holds the halt lock with the id the generated requests use
+	// by default, on both databases of the primary, so that POST /tx comes from the
+	// rightful holder and only the body can be wrong.
+	Hold bool `json:"hold,omitempty"`
 }
+
+// the endpoints that can change a database are asked more often
+var weightedEndpoints = append(append([]string{"/tx", "/tx", "/tx", "/tx", "/halt", "/halt", "/halt", "/import", "/import"}, endpoints...), "/tx", "/halt")
 
 func genPlan(t *rapid.T) Plan {
 	n := rapid.IntRange(1, 20).Draw(t, "n")
 	var p Plan
+	p.Hold = rapid.IntRange(0, 3).Draw(t, "hold") == 0
 	for i := 0; i < n; i++ {
 		r := Req{
 			Node:     rapid.IntRange(0, 2).Draw(t, "node"),
-			Endpoint: rapid.SampledFrom(endpoints).Draw(t, "endpoint"),
-			Name:     rapid.IntRange(0, 4).Draw(t, "name"),
+			Endpoint: rapid.SampledFrom(weightedEndpoints).Draw(t, "endpoint"),
+			Name:     rapid.SampledFrom([]int{0, 1, 2, 3, 4, 4, 4, 4}).Draw(t, "name"),
 			ID:       rapid.IntRange(0, 4).Draw(t, "id"),
 			NodeID:   rapid.IntRange(0, 4).Draw(t, "nodeid"),
 			Header:   rapid.IntRange(0, 3).Draw(t, "hdr"),
-			Body:     rapid.IntRange(0, 6).Draw(t, "body"),
+			Body:     rapid.IntRange(0, 8).Draw(t, "body"),
 			H2:       rapid.Bool().Draw(t, "h2"),
 			Extra:    rapid.IntRange(0, 5).Draw(t, "extra") == 0,
 		}
@@ -191,6 +202,7 @@ type world struct {
 	cl, lone *cluster.Cluster
 	nodes    [3]*cluster.CNode
 	h1, h2   *http.Client
+	hold     bool
 }
 
 const (
@@ -254,7 +266,10 @@ func (w *world) settle() {
 	for time.Now().Before(deadline) && quiet < 3 {
 		ok := w.cl.Primary() != nil && w.cl.WaitConverged(50*time.Millisecond) == nil
 		if ok {
-			for _, x := range w.nodes {
+			for xi, x := range w.nodes {
+				if xi == 0 && w.hold {
+					continue // the halt keeps the primary's locks by design
+				}
 				for _, db := range x.Store.DBs() {
 					for _, lt := range litefs.VerifLockTypes {
 						if h := db.VerifLockHolder(lt); h.State != litefs.RWMutexStateUnlocked {
@@ -404,7 +419,43 @@ func (w *world) build(r Req) (req *http.Request, invalid string) {
 		}
 	case "/tx":
 		valid := ltxFile(512, 99, 99, 0xdeadbeef)
+		var db *litefs.DB
+		if name != "" {
+			db = n.Store.DB(name)
+		}
 		switch r.Body {
+		case BCutSnapshot:
+			max := uint64(7)
+			if db != nil {
+				max = uint64(db.Pos().TXID) + 1
+			}
+			snap := ltxFile(512, 1, max, 0)
+			body = snap[:len(snap)*2/3]
+			mark("undecodable transaction file")
+		case BExtends:
+			if db == nil || db.Pos().TXID == 0 {
+				body = valid
+				mark("transaction file does not extend the database's position")
+				break
+			}
+			// exactly the next transaction of this database: acceptable from the holder
+			// of the halt lock named in the request, and from nobody else
+			pos := db.Pos()
+			body = ltxFile(db.VerifPageSize(), uint64(pos.TXID)+1, uint64(pos.TXID)+1, uint64(pos.PostApplyChecksum))
+			held := false
+			if hl := db.HaltLock(); hl != nil {
+				if id, err := strconv.ParseInt(q.Get("lockID"), 10, 64); err == nil && id == hl.ID {
+					held = true
+				}
+			}
+			if !held {
+				mark("no halt lock is held under the lock id of the request")
+			} else {
+				// (the file claims a post-apply checksum that is not the resulting one:
+				// a holder sending this is outside the property; do not send it)
+				body = valid
+				mark("transaction file does not extend the database's position")
+			}
 		case BValid, BNotContiguous:
 			body = valid // well-formed, but it does not extend any database's position
 			mark("transaction file does not extend the database's position")
@@ -483,7 +534,13 @@ func bodyVariant(kind int, valid []byte) []byte {
 func ltxFile(pageSize uint32, min, max uint64, pre uint64) []byte {
 	var buf bytes.Buffer
 	enc := ltx.NewEncoder(&buf)
-	_ = enc.EncodeHeader(ltx.Header{Version: 1, PageSize: pageSize, Commit: 1, MinTXID: ltx.TXID(min), MaxTXID: ltx.TXID(max), Timestamp: 1, PreApplyChecksum: ltx.Checksum(pre | 1<<63)})
+	prec := ltx.Checksum(pre | 1<<63)
+	if min == 1 {
+		prec = 0 // a snapshot has no predecessor
+	}
+	if err := enc.EncodeHeader(ltx.Header{Version: 1, PageSize: pageSize, Commit: 1, MinTXID: ltx.TXID(min), MaxTXID: ltx.TXID(max), Timestamp: 1, PreApplyChecksum: prec}); err != nil {
+		panic(err)
+	}
 	page := ref.MakeHeaderPage(pageSize, ref.ModeRollback, 1, 1, 1, 1)
 	_ = enc.EncodePage(ltx.PageHeader{Pgno: 1}, page)
 	enc.SetPostApplyChecksum(ltx.Checksum(ref.PageChecksum(1, page)))
@@ -494,9 +551,25 @@ func ltxFile(pageSize uint32, min, max uint64, pre uint64) []byte {
 func runPlan(c *pbt.Case, p Plan) {
 	w := setup(c)
 	w.settle() // positions converge before the applying replica has released its locks
+	if p.Hold {
+		cli := lhttp.NewClient()
+		for _, name := range []string{dbA, dbW} {
+			if _, err := cli.AcquireHaltLock(context.Background(), w.nodes[0].URL, 0xCAFEBABE, name, 4711); err != nil {
+				c.Failf("C20/setup", "halt lock: %v", err)
+			}
+		}
+		c.Label("halt-lock-held")
+		w.hold = true
+		w.settle()
+	}
 	serverLog.take()
 	reached := 0
 	for i, r := range p.Reqs {
+		if p.Hold && (r.Endpoint == "/import" || r.Endpoint == "/halt" || r.Endpoint == "/export" || r.Endpoint == "/stream") {
+			// these wait for the write lock the halt holds (by design, up to the halt
+			// lock's TTL); under a held lock the plan asks /tx instead
+			r.Endpoint, r.Method = "/tx", "POST"
+		}
 		n := w.nodes[r.Node%3]
 		req, invalid := w.build(r)
 		if req == nil {
